@@ -111,6 +111,69 @@ def run_history(case):
     return out
 
 
+def run_cli(case):
+    import tempfile, shutil
+    purge()
+    tmp = tempfile.mkdtemp(prefix='rimuc_case_', dir='/tmp')
+    saved = (os.getcwd(), os.environ.get('HOME'), sys.argv, sys.stdin, sys.stdout, sys.stderr)
+    res = {}
+    try:
+        home = os.path.join(tmp, 'home')
+        work = os.path.join(tmp, 'work')
+        os.makedirs(home)
+        os.makedirs(work)
+        if case.get('rimurc') is not None:
+            with open(os.path.join(home, '.rimurc'), 'w', newline='') as f:
+                f.write(case['rimurc'])
+        inputs = {}
+        for path, content in case.get('files', []):
+            full = os.path.join(work, path)
+            os.makedirs(os.path.dirname(full), exist_ok=True)
+            with open(full, 'w', newline='') as f:
+                f.write(content)
+            inputs[os.path.normpath(path)] = content
+        os.environ['HOME'] = home
+        os.chdir(work)
+        sys.argv = ['rimupy'] + list(case['argv'])
+        sys.stdin = io.StringIO(case.get('stdin', ''))
+        out, err = io.StringIO(), io.StringIO()
+        sys.stdout, sys.stderr = out, err
+        try:
+            import rimuc
+            try:
+                rimuc.main()
+                code = 0
+            except SystemExit as e:
+                code = e.code if isinstance(e.code, int) else (0 if e.code is None else 1)
+            res = {'status': 'done', 'exit': code}
+        except BaseException as e:  # noqa
+            if isinstance(e, KeyboardInterrupt):
+                raise
+            res = {'status': 'raise', 'exn': exn_kind(e), 'msg': str(e)[:200]}
+        finally:
+            sys.stdout, sys.stderr = saved[4], saved[5]
+        res['stdout'] = out.getvalue()
+        res['stderr'] = [l.replace(home, '~') for l in err.getvalue().split('\n') if l != '']
+        new = []
+        for root, _, fs in os.walk(work):
+            for fn in fs:
+                rel = os.path.normpath(os.path.relpath(os.path.join(root, fn), work))
+                with open(os.path.join(root, fn), newline='') as f:
+                    data = f.read()
+                if rel not in inputs or inputs[rel] != data:
+                    new.append([rel, data])
+        res['outfile'] = new[0] if len(new) == 1 else (None if not new else ['<several>', str(sorted(n[0] for n in new))])
+    finally:
+        os.chdir(saved[0])
+        if saved[1] is None:
+            os.environ.pop('HOME', None)
+        else:
+            os.environ['HOME'] = saved[1]
+        sys.argv, sys.stdin = saved[2], saved[3]
+        shutil.rmtree(tmp, ignore_errors=True)
+    return res
+
+
 def run_regex(case):
     rx = re.compile(case['pat'], case.get('flags', 0))
     m = rx.search(case['text'], case.get('pos', 0))
@@ -155,6 +218,8 @@ def main():
                 res = run_parse(case)
             elif k == 'I':
                 res = run_int(case)
+            elif k == 'M':
+                res = run_cli(case)
             else:
                 res = {'error': 'unknown kind'}
         except BaseException as e:  # noqa
